@@ -134,6 +134,18 @@ class YPCodeProgram:
         return generator.generate_program(self)
 
 
+class CutIfMarker(Predicate):
+    '''Internal goal inserted by the compiler: marks the point where an if-then-else
+    commits to its then-branch. It is a node class of its own so that no predicate
+    written in a program can be mistaken for it.'''
+    def __init__(self,label):
+        self.label = label
+    @property
+    def variables(self):
+        return []
+    def __str__(self):
+        return f'$CUTIF({self.label})'
+
 class YPPrologCompiler:
     def __init__(self,context):
         self.context = context
@@ -206,9 +218,9 @@ class YPPrologCompiler:
         if isinstance(body,ConjunctionPredicate):
             # if A is simple
             if isinstance(body.lhs,Predicate):
-                if body.lhs.functor.name.value == '$CUTIF':
+                if isinstance(body.lhs,CutIfMarker):
                     self._debug("------ case: $CUTIF, A")
-                    label = body.lhs.functor.args[0].value
+                    label = body.lhs.label
                     code_a = self.compile_body(body.rhs)
                     code_b = [ YPCodeBreakBlock(label) ]
                     return code_a + code_b
@@ -289,7 +301,7 @@ class YPPrologCompiler:
                         ConjunctionPredicate(
                             body.lhs.condition,
                             ConjunctionPredicate(
-                                Predicate(Functor(Atom("$CUTIF"),[Atom(cut_if_label)])),
+                                CutIfMarker(cut_if_label),
                                 body.lhs.action
                             )
                         ),
@@ -308,12 +320,8 @@ class YPPrologCompiler:
             return self.compile_body(ConjunctionPredicate(body, TruePredicate()))
         # :- functor(...)   A => A, true
         elif isinstance(body,Predicate):
-            if body.functor.name.value == '$CUTIF':
-                self._debug("------ case: $CUTIF", body.functor.args)
-                return [ self.YPCodeBreakBlock(body.functor.args[0].value) ]
-            else:
-                self._debug("------ case: [A  =>  A, true]  A => A, true")
-                return self.compile_body(ConjunctionPredicate(body, TruePredicate()))
+            self._debug("------ case: [A  =>  A, true]  A => A, true")
+            return self.compile_body(ConjunctionPredicate(body, TruePredicate()))
         elif isinstance(body,NegationPredicate):
             self._debug("------ case: [A  =>  A, true]  (\\+ A) => (\\+ A), true")
             return self.compile_body(ConjunctionPredicate(body, TruePredicate()))
